@@ -13,6 +13,7 @@ MODULE_T = "T_Failover"
 INVARIANTS = ["InvOrder", "InvTcpOnly", "InvMoveOn", "InvFirstAnswer", "InvErr", "InvWithinTtl", "InvAfterTtl", "InvNoPanic",
               "InvCacheGood", "InvSomeOutcome", "InvSplit", "Emit"]
 ALL_CLASSES = ["versions", "cdns", "bgdl", "summary", "certs"]
+UTF8_SHAPES = ["bpsv_utf8", "mime_utf8", "mime_lf_utf8"]
 SMALL_SHAPES = ["bpsv_nn", "bpsv", "bpsv_crlf", "bpsv_footer", "bpsv_blank", "bpsv_blank2", "mime", "mime_lf", "mime_srv", "mime_nosum", "bpsv_u512"]
 
 
@@ -47,7 +48,11 @@ def plan(quick):
         return [
             ("chain", dict(http=http_q, tcp=tcp_q, classes=ALL_CLASSES)),
             ("cache", dict(depth=4)),
+            ("renew", dict(depth=6)),
             ("split", dict(cls="summary", shapes=["bpsv_nn", "bpsv_blank", "bpsv_crlf"], modes=["one"])),
+            ("split", dict(cls="summary", shapes=["bpsv_utf8", "mime_utf8", "mime_lf_utf8"], modes=["mb1", "mb2"])),
+            ("split", dict(cls="versions", shapes=["bpsv_utf8", "mime_utf8", "bpsv_big_utf8"], modes=["mb1"])),
+            ("split", dict(cls="summary", shapes=["bpsv_big_utf8"], modes=["mb1"])),
             ("split", dict(cls="summary", shapes=["bpsv_blank2"], modes=["marks1", "marks2"])),
             ("split", dict(cls="summary", shapes=["bpsv", "bpsv_footer", "mime", "mime_lf", "mime_srv", "mime_nosum", "bpsv_u512"], modes=["marks1"])),
             ("split", dict(cls="versions", shapes=["bpsv_big", "bpsv_blank", "mime_lf"], modes=["sparse"])),
@@ -57,6 +62,12 @@ def plan(quick):
     return [
         ("chain", dict(http=http_t, tcp=tcp_t, classes=ALL_CLASSES)),
         ("cache", dict(depth=5)),
+        ("renew", dict(depth=7)),
+        ("split", dict(cls="summary", shapes=UTF8_SHAPES, modes=["one"])),
+        ("split", dict(cls="summary", shapes=UTF8_SHAPES, modes=["mb2"])),
+        ("split", dict(cls="versions", shapes=UTF8_SHAPES + ["bpsv_big_utf8"], modes=["marks1", "mb2"])),
+        ("split", dict(cls="cdns", shapes=UTF8_SHAPES + ["bpsv_big_utf8"], modes=["mb1", "mb2"])),
+        ("split", dict(cls="summary", shapes=["bpsv_big_utf8"], modes=["marks1", "mb2"])),
         ("split", dict(cls="summary", shapes=SMALL_SHAPES, modes=["one"])),
         ("split", dict(cls="summary", shapes=["bpsv_nn", "bpsv", "bpsv_crlf", "bpsv_footer", "bpsv_blank", "bpsv_blank2", "bpsv_u512"], modes=["marks2"])),
         ("split", dict(cls="summary", shapes=["mime", "mime_lf", "mime_srv"], modes=["marks2"])),
@@ -105,7 +116,7 @@ def program_of(evs):
     if not evs or evs[0].get("op") != "new":
         return None
     new = evs[0]
-    ops = [{k: v for k, v in e.items() if k in ("op", "p", "k")} for e in evs[1:] if e.get("op") in ("query", "tick", "reopen", "flip", "download")]
+    ops = [{k: v for k, v in e.items() if k in ("op", "p", "k") or (k == "ms" and e.get("op") == "wait")} for e in evs[1:] if e.get("op") in ("query", "tick", "wait", "reopen", "flip", "download")]
     if new["fam"] == "cdn":
         return {"fam": "cdn", "cache": new["cache"], "script": new["script"], "ra": new["ra"], "ops": ops}
     prog = {"fam": new["fam"], "cache": new["cache"], "ttl": new["ttl"], "cls": new["cls"], "beh": new["beh"], "beh2": new["beh2"], "ops": ops}
@@ -343,6 +354,8 @@ def run(ctx):
             if not did_selftest:
                 selftest(ctx, trace, kd)
                 did_selftest = True
+        elif family == "renew":
+            add_sample(ctx, trace, src, lambda l: '"cache":"disk"' in l)
         elif family == "cache":
             add_sample(ctx, trace, src, lambda l: '"cache":"disk"' in l and '"ttl":"short"' in l)
         elif family == "split" and len(ctx.cov["samples"]) < 4:
